@@ -1,0 +1,77 @@
+//go:build verif
+
+package txpool
+
+import (
+	"github.com/oasisprotocol/oasis-core/go/common/crypto/hash"
+	"github.com/oasisprotocol/oasis-core/go/runtime/host/protocol"
+)
+
+// VerifMainQueue exposes the package-private main queue (and its scheduler) to the external
+// verification harness. It only exists in builds with the `verif` tag.
+type VerifMainQueue struct {
+	q *mainQueue
+}
+
+// NewVerifMainQueue creates a new main queue with the given capacity.
+func NewVerifMainQueue(capacity int) *VerifMainQueue {
+	return &VerifMainQueue{q: newMainQueue(capacity)}
+}
+
+func verifHashes(txs []*TxQueueMeta) []hash.Hash {
+	hs := make([]hash.Hash, 0, len(txs))
+	for _, tx := range txs {
+		hs = append(hs, tx.Hash())
+	}
+	return hs
+}
+
+// Add adds a transaction exactly as the transaction pool does after a successful check.
+func (v *VerifMainQueue) Add(h hash.Hash, sender string, seq, priority, senderStateSeq uint64) error {
+	return v.q.Add(&TxQueueMeta{hash: h}, &protocol.CheckTxMetadata{
+		Priority:       priority,
+		Sender:         []byte(sender),
+		SenderSeq:      seq,
+		SenderStateSeq: senderStateSeq,
+	})
+}
+
+// Schedule starts a new scheduling pass.
+func (v *VerifMainQueue) Schedule(limit int) []hash.Hash { return verifHashes(v.q.Schedule(limit)) }
+
+// ScheduleExtra continues the current scheduling pass.
+func (v *VerifMainQueue) ScheduleExtra(limit int) []hash.Hash {
+	return verifHashes(v.q.ScheduleExtra(limit))
+}
+
+// HandleTxsUsed removes used transactions.
+func (v *VerifMainQueue) HandleTxsUsed(hashes []hash.Hash) { v.q.HandleTxsUsed(hashes) }
+
+// Forward moves the sender's queue forward.
+func (v *VerifMainQueue) Forward(sender string, seq uint64) {
+	v.q.mu.Lock()
+	defer v.q.mu.Unlock()
+	v.q.scheduler.forward(sender, seq)
+}
+
+// Reset resets the ongoing schedule.
+func (v *VerifMainQueue) Reset() {
+	v.q.mu.Lock()
+	defer v.q.mu.Unlock()
+	v.q.scheduler.reset()
+}
+
+// All returns the hashes of all queued transactions.
+func (v *VerifMainQueue) All() []hash.Hash { return verifHashes(v.q.All()) }
+
+// Drain removes and returns all queued transactions.
+func (v *VerifMainQueue) Drain() []hash.Hash { return verifHashes(v.q.Drain()) }
+
+// Size returns the number of queued transactions.
+func (v *VerifMainQueue) Size() int { return v.q.Size() }
+
+// Has returns true if the transaction is queued.
+func (v *VerifMainQueue) Has(h hash.Hash) bool {
+	_, ok := v.q.Get(h)
+	return ok
+}
